@@ -1,0 +1,51 @@
+//go:build verif
+
+// Contracts for package scheduler, read by /verif/engine (govc). Comments only.
+package scheduler
+
+// ---------------------------------------------------------------- treescheduler.go (C17)
+
+// The queue order: lexicographic on (when, id).
+//@ func (Item).Less
+//@   props C17 C05
+//@   requires typeis(bItem, Item)
+//@   pure
+//@   ensures result == (it.when < as(bItem, Item).when || (it.when == as(bItem, Item).when && it.id < as(bItem, Item).id))
+
+// ... and that order is a strict total order (what the btree needs from Less).
+//@ lemma itemLessIrreflexive props C17: forall w int, i int :: !(w < w || (w == w && i < i))
+//@ lemma itemLessTransitive props C17: forall w1 int, i1 int, w2 int, i2 int, w3 int, i3 int ::
+//@     (w1 < w2 || (w1 == w2 && i1 < i2)) && (w2 < w3 || (w2 == w3 && i2 < i3)) ==> (w1 < w3 || (w1 == w3 && i1 < i3))
+//@ lemma itemLessTotal props C17: forall w1 int, i1 int, w2 int, i2 int ::
+//@     (w1 < w2 || (w1 == w2 && i1 < i2)) || (w2 < w1 || (w2 == w1 && i2 < i1)) || (w1 == w2 && i1 == i2)
+
+// cron occurrences: assumed (trusted) strictly after `from`, on whole seconds.
+//@ func (Schedule).Next
+//@   trusted
+//@   modifies nothing
+//@   ensures result1 == nil ==> result0 > from && emod(int64(result0) - 62135596800000000000, 1000000000) == 0
+
+// "consecutive occurrences ... in increasing order ... never before occurrence+offset":
+// the next occurrence is strictly later and the due time is occurrence + offset.
+//@ func (*Item).updateNext
+//@   props C17 C05
+//@   modifies it.next, it.when
+//@   ensures result == nil ==> it.next > old(it.next) && it.when == it.next + it.Offset
+//@   ensures result != nil ==> it.next == old(it.next) && it.when == old(it.when)
+
+//@ func (Item).Next
+//@   props C17
+//@   pure
+//@   ensures result == time.Unix(it.next, 0)
+
+//@ func (Item).When
+//@   props C17
+//@   pure
+//@   ensures result == time.Unix(it.when, 0)
+
+// The dispatch guard: an item is handed to a worker only when occurrence + offset is not after
+// the scheduler's clock reading, and always to the worker selected by the hash of its id.
+//@ func (*TreeScheduler).iterator$1
+//@   props C17 C05
+//@   requires s != nil && s.items != nil && len(s.workchans) > 0 && (i != nil ==> typeis(i, Item))
+//@   guardcall send#1: !(time.Unix(it.next + it.Offset, 0) > ts)
